@@ -343,6 +343,7 @@ structure CompInst where
   id : String
   legacy : Bool
   lpatch : Bool
+  relayAlways : Bool := false
   st : Comp.State (List Nat)
   steps : Nat := 0
   failed : Option String := none
@@ -429,7 +430,7 @@ def handleSlice (st : DState) (toks : List String) : DState × Option String :=
   | "sbegin" :: "comp" :: inst :: n :: legacy :: patch :: vH :: vs =>
     let clients := (List.range n.toNat!).map (fun k =>
       ({ id := k + 1, p := { val := parseV (vs.getD k "-") } } : Comp.Client (List Nat)))
-    ({ st with comp := some { id := inst, legacy := legacy == "1", lpatch := patch == "l",
+    ({ st with comp := some { id := inst, legacy := legacy == "1", lpatch := patch == "l", relayAlways := patch == "R",
                               st := { host := { val := parseV vH }, clients := clients } } }, none)
   | "a" :: rest =>
     match st.comp with
@@ -437,7 +438,7 @@ def handleSlice (st : DState) (toks : List String) : DState × Option String :=
       match compAct rest with
       | some a =>
         let patch : List Nat → List Nat → List Nat := if ci.lpatch then Comp.listPatch else Comp.replace
-        ({ st with comp := some { ci with st := Comp.step ci.legacy patch ci.st a, steps := ci.steps + 1 } }, none)
+        ({ st with comp := some { ci with st := Comp.step ci.relayAlways ci.legacy patch ci.st a, steps := ci.steps + 1 } }, none)
       | none => ({ st with comp := some { ci with failed := ci.failed.orElse (fun _ => some s!"bad action {rest}") } }, none)
     | none => (st, some "MISMATCH slice: action outside an instance")
   | "x" :: rest =>
